@@ -81,8 +81,9 @@ impl<T> RawTable<T> {
         if item.in_main {
             self.table.erase(item.bucket);
         } else if let Some(ref mut lo) = self.leftovers {
-            lo.items.reflect_remove(&item.bucket);
+            lo.reflect_remove(&item.bucket);
             lo.table.erase(item.bucket);
+            lo.resync();
         } else {
             unreachable!("invalid bucket state");
         }
@@ -94,8 +95,9 @@ impl<T> RawTable<T> {
         if item.in_main {
             self.table.remove(item.bucket).0
         } else if let Some(ref mut lo) = self.leftovers {
-            lo.items.reflect_remove(&item.bucket);
+            lo.reflect_remove(&item.bucket);
             let (v, _) = lo.table.remove(item.bucket);
+            lo.resync();
 
             if lo.table.len() == 0 {
                 let _ = self.leftovers.take();
@@ -323,10 +325,12 @@ impl<T> RawTable<T> {
             // full). If `f` puts an element back, the table is as it was, and so we restore
             // the iterator to what it was as well.
             let before = lo.items.clone();
-            lo.items.reflect_remove(&bucket.bucket);
-            let occupied = lo.table.replace_bucket_with(bucket.bucket, f);
+            lo.reflect_remove(&bucket.bucket);
+            // (also when `f` unwinds)
+            let lo = ResyncOnDrop(lo);
+            let occupied = lo.0.table.replace_bucket_with(bucket.bucket, f);
             if occupied {
-                lo.items = before;
+                lo.0.items = before;
             }
             occupied
         } else {
@@ -628,6 +632,41 @@ struct OldTable<T> {
     // We cache an iterator over the old table's buckets so we don't need to do a linear search
     // across buckets we know are empty each time we want to move more items.
     items: raw::RawIter<T>,
+}
+
+impl<T> OldTable<T> {
+    /// Tells the cached iterator that `bucket`, which it has not yielded yet, is about to be
+    /// removed from the old table.
+    ///
+    /// hashbrown cannot locate the bucket of a zero-sized element inside an iterator
+    /// (`reflect_remove` panics), so for those the iterator is re-created after the removal
+    /// instead; see [`OldTable::resync`].
+    #[cfg_attr(feature = "inline-more", inline)]
+    unsafe fn reflect_remove(&mut self, bucket: &raw::Bucket<T>) {
+        if mem::size_of::<T>() != 0 {
+            self.items.reflect_remove(bucket);
+        }
+    }
+
+    /// Must be called after a removal announced with [`OldTable::reflect_remove`].
+    ///
+    /// Re-creating the iterator loses nothing: every bucket it has yielded so far was emptied
+    /// straight away (see `carry`), so a fresh iterator yields exactly the same elements.
+    #[cfg_attr(feature = "inline-more", inline)]
+    unsafe fn resync(&mut self) {
+        if mem::size_of::<T>() == 0 {
+            self.items = self.table.iter();
+        }
+    }
+}
+
+struct ResyncOnDrop<'a, T>(&'a mut OldTable<T>);
+
+impl<T> Drop for ResyncOnDrop<'_, T> {
+    #[cfg_attr(feature = "inline-more", inline)]
+    fn drop(&mut self) {
+        unsafe { self.0.resync() }
+    }
 }
 
 /// Iterator which returns a raw pointer to every full bucket in the table.
